@@ -24,12 +24,13 @@ Oracle  the *acceptance vector* of an annotation =
         pre-bound to 3; `a` pre-bound to 5), each probe in its own
         `with jaxtyped("context")` block;
         (tree part) the annotation as the LEAF TYPE of a structured
-        `PyTree[ann, "T"]`: two-leaf trees {"x": v1, "y": v2} over 7 shape pairs
-        (equal sizes, unequal sizes, unequal ranks), one binding context per
-        tree, for each array class the annotation does not reject outright, with
-        the first dtype of that class it does not reject (read off the plain
-        part just measured) - the only place where `?` / `*?` axes answer
-        instead of raising AnnotationError.
+        `PyTree[ann, "T"]`: two-leaf trees {"x": v1, "y": v2}, one binding
+        context per tree, for each array class the annotation does not reject
+        outright, with the first dtype of that class it does not reject and base
+        shapes of the two lowest ranks it does not reject (read off the plain
+        part just measured): equal leaves, leaves unequal in exactly ONE axis
+        (for every axis), one tree of mixed rank - the only place where `?` /
+        `*?` axes answer instead of raising AnnotationError (see `tree_plan`).
           (1) vector(reconstructed) == vector(original) computed BEFORE
               serialising                                        [side = copy]
           (2) vector(original) recomputed AFTER dumps / after loads is
@@ -99,6 +100,7 @@ CHAIN_CATS_THOROUGH = ["Shaped", "Num", "Float", "Integer", "Float32", "Int32", 
 OUTER_DIMS_CHAIN_QUICK = ["", "_ a", "... a", "a+1"]
 # quick tier, tree-path axes in two-level chains: (outermost dims, innermost dims)
 CHAIN_TP_QUICK = [("", "?a"), ("*?v 3", "a"), ("?a", "_")]
+TP_BASES_THOROUGH = ["nd", "duck"]  # base array types under nested-1 annotations with a tree-path axis
 
 DUMP_SEED = 1  # PYTHONHASHSEED of every interpreter that builds + dumps
 LOAD_SEEDS = [2]  # ... of the interpreters that load (first family)
@@ -112,9 +114,6 @@ DUCK_DTYPES = ["bool", "uint8", "uint16", "int8", "int32", "float16", "float32",
 SHAPES = [(), (1,), (3,), (4,), (2, 3), (3, 3), (3, 4), (2, 3, 3), (3, 3, 3), (3, 3, 3, 3)]
 CONTEXTS = [None, 3, 5]  # empty / a=3 (most shapes match) / a=5 (no shape matches)
 N_PLAIN = len(CONTEXTS) * (len(ND_DTYPES) + len(DUCK_DTYPES)) * len(SHAPES)
-# leaf shapes of the two-leaf trees {"x": ., "y": .} checked against PyTree[ann, "T"]
-TREE_PAIRS = [((), ()), ((3,), (3,)), ((3,), (4,)), ((2, 3), (2, 3)), ((2, 3), (3, 3)), ((2, 3), (2, 4)), ((3,), (2, 3))]
-TREE_UNEQUAL = [k for k, (s1, s2) in enumerate(TREE_PAIRS) if s1 != s2]
 
 CANARY = [
     ("Float", "nd", "_ a"),
@@ -145,7 +144,8 @@ def enumerate_specs(tier: str) -> list:
             for ic in inner_cats:
                 for d in DIMS:
                     for idim in INNER_DIMS:
-                        if thorough or ("?" not in d and "?" not in idim):
+                        # tree-path axes: thorough over ndarray and Duck20 bases; quick see below
+                        if ("?" not in d and "?" not in idim) or (thorough and base in TP_BASES_THOROUGH):
                             out.append((c, (ic, base, idim), d))
     if not thorough:
         # quick: every (outer dims, inner dims) pair with a tree-path axis, over the chain categories
@@ -164,6 +164,8 @@ def enumerate_specs(tier: str) -> list:
     for c1, c2, c3 in itertools.product(chain, repeat=3):
         for d1, d3 in dim_pairs:
             for d2 in mid_dims:
+                if d2 == "" and ("?" in d1 or "?" in d3):
+                    continue  # tree-path axes in chains: with the middle level "b" only
                 out.append((c1, (c2, (c3, "nd", d3), d2), d1))
     return out
 
@@ -277,36 +279,49 @@ def _rt():
         for sh in SHAPES:
             values.append(fx.Duck20(sh, dt))
             labels.append(f"Duck20 {dt} {sh}")
-    trees = {}
-    for dt in ND_DTYPES:
-        trees[("ndarray", dt)] = [{"x": np.zeros(s1, dtype=getattr(np, dt)), "y": np.zeros(s2, dtype=getattr(np, dt))} for s1, s2 in TREE_PAIRS]
-    for dt in DUCK_DTYPES:
-        trees[("Duck20", dt)] = [{"x": fx.Duck20(s1, dt), "y": fx.Duck20(s2, dt)} for s1, s2 in TREE_PAIRS]
     _RT.update(
-        np=np, typing=typing, jaxtyping=jaxtyping, jaxtyped=jaxtyped, fx=fx, values=values, labels=labels, PyTree=PyTree, trees=trees,
+        np=np, typing=typing, jaxtyping=jaxtyping, jaxtyped=jaxtyped, fx=fx, values=values, labels=labels, PyTree=PyTree, trees={},
         binder=jaxtyping.Shaped[fx.Duck20, "a"], bind={3: fx.Duck20((3,)), 5: fx.Duck20((5,))},
     )  # fmt: skip
     return _RT
 
 
 def tree_plan(plain: list) -> list:
-    """Which (array class, dtype) the two-leaf trees of an annotation are made of:
-    per array class the first dtype that the annotation does not reject outright
+    """The two-leaf trees an annotation is checked against as a PyTree leaf type:
+    a list of (array class, dtype, shape of leaf x, shape of leaf y).
+
+    Per array class: the first dtype that the annotation does not reject outright
     (some outcome other than F in the empty context of the PLAIN part, i.e. T or,
-    for tree-path axes, <AnnotationError>).  A pure function of the plain part, so
+    for tree-path axes, <AnnotationError>); for that dtype the two lowest ranks with
+    a shape that is not rejected; per rank the base shape (3,)*rank if it is not
+    rejected, else the first shape of that rank that is not; per base shape b the
+    trees {b, b} (equal sizes) and {b, b + e_i} for EVERY axis i (unequal in exactly
+    one axis: decides, axis by axis, whether sizes are bound across leaves or per
+    leaf), and one tree mixing the two ranks.  A pure function of the plain part, so
     two annotations with equal plain parts are probed with the same trees."""
     n = len(SHAPES)
     out = []
     for cls, dts, off in (("ndarray", ND_DTYPES, 0), ("Duck20", DUCK_DTYPES, len(ND_DTYPES) * n)):
         for k, dt in enumerate(dts):
-            if any(x != "F" for x in plain[off + k * n : off + (k + 1) * n]):
-                out.append((cls, dt))
-                break
+            ok = [sh for sh, x in zip(SHAPES, plain[off + k * n : off + (k + 1) * n]) if x != "F"]
+            if not ok:
+                continue
+            bases = []
+            for r in sorted({len(sh) for sh in ok})[:2]:
+                cube = (3,) * r
+                bases.append(cube if cube in ok else next(sh for sh in ok if len(sh) == r))
+            for b in bases:
+                out.append((cls, dt, b, b))
+                for i in range(len(b)):
+                    out.append((cls, dt, b, b[:i] + (b[i] + 1,) + b[i + 1 :]))
+            if len(bases) == 2:
+                out.append((cls, dt, bases[0], bases[1]))
+            break
     return out
 
 
 def tree_labels(plan) -> list:
-    return [f"tree {{x: {cls} {dt} {s1}, y: {cls} {dt} {s2}}} against PyTree[annotation, 'T'] ctx=empty" for cls, dt in plan for s1, s2 in TREE_PAIRS]
+    return [f"tree {{x: {cls} {dt} {s1}, y: {cls} {dt} {s2}}} against PyTree[annotation, 'T'] ctx=empty" for cls, dt, s1, s2 in plan]
 
 
 def labels_for(ref: list) -> list:
@@ -319,6 +334,20 @@ def labels_for(ref: list) -> list:
 
 def tree_part(ref: list) -> list:
     return ref[N_PLAIN:]
+
+
+def _tree(key):
+    """{"x": leaf, "y": leaf} for a plan entry (cached per interpreter)."""
+    rt = _rt()
+    t = rt["trees"].get(key)
+    if t is None:
+        cls, dt, s1, s2 = key
+        if cls == "ndarray":
+            t = {"x": rt["np"].zeros(s1, dtype=getattr(rt["np"], dt)), "y": rt["np"].zeros(s2, dtype=getattr(rt["np"], dt))}
+        else:
+            t = {"x": rt["fx"].Duck20(s1, dt), "y": rt["fx"].Duck20(s2, dt)}
+        rt["trees"][key] = t
+    return t
 
 
 def probe_labels() -> list:
@@ -404,11 +433,10 @@ def vector(ann, values=None) -> list:
             try:
                 tree_t = (rt["PyTree"][ann, "T"],)
             except Exception as e:  # noqa: BLE001
-                return out + [f"<PyTree:{type(e).__name__}>"] * (len(plan) * len(TREE_PAIRS))
+                return out + [f"<PyTree:{type(e).__name__}>"] * len(plan)
             for key in plan:
-                for tree in rt["trees"][key]:
-                    with jaxtyped("context"):
-                        out.append(_outcome(tree, tree_t))
+                with jaxtyped("context"):
+                    out.append(_outcome(_tree(key), tree_t))
     return out
 
 
@@ -860,8 +888,10 @@ def symptom(ref: list, got: list) -> str:
 
 def _diff_text(ref: list, got: list, labels: list) -> str:
     idx = [i for i, (a, b) in enumerate(zip(ref, got)) if a != b]
-    ex = "; ".join(f"{labels[i]}: original {ref[i]} -> {got[i]}" for i in idx[:3])
-    return f"{len(idx)} of {len(ref)} probes differ, e.g. {ex}"
+    tree = [i for i in idx if i >= N_PLAIN]
+    show = idx[:3] if not tree or tree[0] in idx[:3] else idx[:2] + tree[:1]
+    ex = "; ".join(f"{labels[i]}: original {ref[i]} -> {got[i]}" for i in show)
+    return f"{len(idx)} of {len(ref)} probes differ ({len(tree)} of them as a PyTree leaf type), e.g. {ex}"
 
 
 # --------------------------------------------------------------------- pool job
@@ -961,13 +991,13 @@ def _job(job):
         nt = ("T" in ref) and any(x != "T" for x in ref)
         if nt:
             stats["nontrivial_annotations"] += 1
-        tp = tree_part(ref)
-        stats[f"tree_plan_{len(tp) // len(TREE_PAIRS)}"] += 1
+        tp, plan = tree_part(ref), tree_plan(ref[:N_PLAIN])
+        stats[f"tree_plan_{len({e[0] for e in plan})}"] += 1
         if "T" in tp and any(x != "T" for x in tp):
             stats["tree_nontrivial_annotations"] += 1
         if any("?" in t for t in all_tokens(spec)):
             stats["treepath_annotations"] += 1
-            if any(tp[k + j] == "T" for k in range(0, len(tp), len(TREE_PAIRS)) for j in TREE_UNEQUAL):
+            if any(x == "T" and e[2] != e[3] for x, e in zip(tp, plan)):
                 stats["treepath_annotations_accepting_unequal_leaves"] += 1
         vectors_seen.add(hashlib.sha1(it["v0"].encode()).hexdigest()[:12])
         cl = classify(spec)
@@ -1212,7 +1242,8 @@ def run(ctx):
         distinct_acceptance_vectors=len(vectors),
         routes=[f"pickle{p}" for p in PICKLE_PROTOCOLS] + ["cloudpickle", "cloudpickle-ref", "copy", "deepcopy"],
         routes_x_processes=n_routes * 2,
-        probes_per_vector=f"{N_PLAIN} plain + {len(TREE_PAIRS)} two-leaf trees per array class the annotation does not reject outright (0..2 classes)",
+        probes_per_vector=f"{N_PLAIN} plain + per array class the annotation does not reject outright (0..2) the two-leaf trees of its two lowest ranks: equal leaves, "
+        "leaves unequal in exactly one axis (every axis), one rank-mixed tree (1..10 trees per class)",
         isinstance_probes_compared=stats["probes"],
         pytree_leaf_probes_compared=stats["tree_probes"],
         annotations_by_tree_classes={k: stats[f"tree_plan_{k}"] for k in (0, 1, 2)},
@@ -1226,14 +1257,15 @@ def run(ctx):
         unattributed_original_changes=stats["unattributed_original_changes"],
         violation_instances_by_key=counts,
         bounds=f"{len(CATS)} categories x {{ndarray,Duck20,Any,Union}} x {len(DIMS)} dim strings (incl. '?a', '*?v 3'); nested 1 level: 16 outer x "
-        + (f"{len(CATS)} inner categories x {len(DIMS)} x {len(INNER_DIMS)} dim strings over 4 base types" if ctx.thorough else
+        + (f"{len(CATS)} inner categories x {len(DIMS_NO_TP)} x {len(INNER_DIMS_NO_TP)} dim strings over 4 base types + every (outer, inner) dims pair with a '?' axis "
+           f"({len(DIMS) * len(INNER_DIMS) - len(DIMS_NO_TP) * len(INNER_DIMS_NO_TP)}) over {{ndarray,Duck20}}" if ctx.thorough else
            f"{len(INNER_CATS_QUICK)} inner categories x {len(DIMS_NO_TP)} x {len(INNER_DIMS_NO_TP)} dim strings over ndarray + every (outer, inner) dims pair with a '?' axis "
            f"({len(DIMS) * len(INNER_DIMS) - len(DIMS_NO_TP) * len(INNER_DIMS_NO_TP)}) over {len(CHAIN_CATS_QUICK)}x{len(CHAIN_CATS_QUICK)} categories")
         + f"; nested 2 levels: {len(CHAIN_CATS_THOROUGH if ctx.thorough else CHAIN_CATS_QUICK)}^3 category chains x "
-        + (f"{len(DIMS)} x 2 x {len(INNER_DIMS)} dims" if ctx.thorough else f"({len(OUTER_DIMS_CHAIN_QUICK)} x {len(INNER_DIMS_NO_TP)} + {len(CHAIN_TP_QUICK)} '?' pairs) dims")
+        + (f"({len(DIMS_NO_TP)} x 2 x {len(INNER_DIMS_NO_TP)} + {len(DIMS) * len(INNER_DIMS) - len(DIMS_NO_TP) * len(INNER_DIMS_NO_TP)} '?' pairs) dims" if ctx.thorough else f"({len(OUTER_DIMS_CHAIN_QUICK)} x {len(INNER_DIMS_NO_TP)} + {len(CHAIN_TP_QUICK)} '?' pairs) dims")
         + f"; unordered-category family: {{SetMix,SetRe}} flat, nested 1 level (both directions, {len(CATS) if ctx.thorough else len(HASH_PARTNERS_QUICK)} partner categories + each other), "
         f"2-level chains with {'>= 1' if ctx.thorough else 'exactly 1'} of them among {len(HASH_CHAIN_THOROUGH if ctx.thorough else HASH_CHAIN_QUICK)} others, dumped under PYTHONHASHSEED={DUMP_SEED}, loaded under {HASH_LOAD_SEEDS}"
-        f"; probes: 2 array classes x 9 dtypes x {len(SHAPES)} shapes x 3 contexts + two-leaf trees over {len(TREE_PAIRS)} shape pairs as PyTree[annotation,'T'] leaves",
+        f"; probes: 2 array classes x 9 dtypes x {len(SHAPES)} shapes x 3 contexts + two-leaf trees (equal / unequal in one axis, every axis / mixed rank) as PyTree[annotation,'T'] leaves",
     )  # fmt: skip
     return Result(
         level="exploration",
